@@ -209,11 +209,11 @@ def check_C09(run):
 def check_C10(run):
     q = run.quick
     fams = [("hist+ifail", dict(over=dict(MaxT=4 if q else 6, MaxKids=5 if q else 6, MaxRecs=1 if q else 2, MaxRevokes=1, EmitEvery=10 if q else 40),
-                                ik=("session", "none") if q else ("session", "shared", "none"), sk=(True, False), drvargs=("-ifail", "250"), strict=False)),
+                                ik=("session", "none") if q else ("session", "shared", "none"), sk=(True, False), drvargs=("-ifail", "250", "-cancel", "150"), strict=False)),
             ("faults+ifail", dict(over=dict(MaxT=5, Ticks="{4}", MaxKids=5, MaxRecs=1, MaxRevokes=0, MaxFaults=2, MaxOpFaults=2, EmitEvery=10 if q else 30),
-                                  ik=("session", "none"), sk=(True,), drvargs=("-ifail", "250"), strict=False)),
+                                  ik=("session", "none"), sk=(True,), drvargs=("-ifail", "250", "-cancel", "150"), strict=False)),
             ("race-dup", dict(over=dict(MaxT=1, MaxKids=4, MaxRecs=1, MaxRevokes=0, EmitEvery=10 if q else 6), procs=("p1", "p2"), ik=("session",), sk=(True,),
-                              drvargs=("-ifail", "150"), strict=False))]
+                              drvargs=("-ifail", "150", "-cancel", "150"), strict=False))]
     aws_kms_wipe(run)
     return generic(run, fams)
 
